@@ -67,3 +67,7 @@ static void vp_mk_sock(size_t nc, size_t nt, size_t nu)
 }
 
 void h_sub0_matches(void) { uint8_t *body; size_t len; VP_HAVOC_GHOSTS(); vp_mk_sock(1, nondet_size_t(), 0); sub0_matches(&g_s->master, body, len); VP_CANARY(); }
+#ifndef SUB_NC
+#define SUB_NC 1
+#endif
+void h_sub0_recv_cb(void) { VP_HAVOC_GHOSTS(); vp_mk_sock(SUB_NC, nondet_size_t(), nondet_size_t()); sub0_recv_cb(g_pp); VP_CANARY(); }
